@@ -10,6 +10,7 @@ import (
 
 	"golang.org/x/tools/go/ssa"
 
+	"verif/checker/esp"
 	"verif/checker/flow"
 	"verif/checker/load"
 )
@@ -27,6 +28,7 @@ func init() {
 			"R5 raw renderings: InspectPayload / InspectSignature hand the field bytes (same access path as the endorsement field) to WriteBytesForm, and WriteBytesForm's raw arm writes its parameter itself. " +
 			"R6 numeral agreement (siblings): every strconv conversion of the stored text of a number token (list index, each map-key kind) reads it in the same base, so one spelling denotes one number whatever the step kind. " +
 			"R7 parse width: the bit size given to strconv.ParseInt/ParseUint for a number literal (a constant, or a small helper evaluated for the key kind of the enclosing switch arm) is not larger than the integer type the result is converted to, so out-of-range literals are refused rather than truncated. " +
+			"R8 cursor kind (ESP on the evaluator): Value.List() only after IsList() was true, Value.Map() only after IsMap() was true, Value.Message() only where the descriptor cursor is not a field descriptor or is a field known to be neither list nor map — these conversions panic on a mismatch. " +
 			"Not covered: value equality with a field-by-field walk, panics inside protoreflect for ill-typed hand-built paths, scanner progress (regular-expression reasoning), agreement of parser and evaluator descriptor transfers beyond R1.",
 		Assumptions: []string{"go/types, go/ssa", "protoreflect accessors"},
 		Run:         runC19,
@@ -185,6 +187,127 @@ func runC19(c *Ctx) {
 		}
 		sort.Strings(missing)
 		c.S.Check(len(missing) == 0 && len(all) > 0, "R3", name+":step kinds", c.pos(ev.Pos()), fmt.Sprintf("all %d protopath.StepKind constants handled", len(all)), fmt.Sprintf("step kinds not handled by the evaluator: %v", missing))
+	}
+
+	// ---- R8: kind conversions of the value cursor are guarded by the descriptor's kind ----
+	// protoreflect.Value.Message / List / Map panic when the value holds another kind. The evaluator may call them
+	// only where the descriptor cursor says so: List behind IsList, Map behind IsMap, Message where the descriptor
+	// is not a field descriptor (a message descriptor) or is a field known to be neither list nor map.
+	for _, ev := range evals {
+		const (
+			bFD uint = iota
+			bNotFD
+			bList
+			bNotList
+			bMap
+			bNotMap
+		)
+		names := []string{"field-descriptor", "not-field-descriptor", "list", "not-list", "map", "not-map"}
+		isFDAssert := func(in ssa.Instruction) bool {
+			ex, ok := in.(*ssa.Extract)
+			if !ok || ex.Index != 1 {
+				return false
+			}
+			ta, ok := ex.Tuple.(*ssa.TypeAssert)
+			return ok && ta.CommaOk && namedIs(ta.AssertedType, protoreflectPkg, "FieldDescriptor")
+		}
+		convKind := func(call ssa.CallInstruction) string {
+			cal := call.Common().StaticCallee()
+			if cal == nil || cal.Signature.Recv() == nil || !namedIs(cal.Signature.Recv().Type(), protoreflectPkg, "Value") {
+				return ""
+			}
+			switch cal.Name() {
+			case "Message", "List", "Map":
+				return cal.Name()
+			}
+			return ""
+		}
+		nConv := 0
+		region := map[*ssa.Function]bool{}
+		for _, g := range unexportedRegion(ev) {
+			region[g] = true
+		}
+		r := &esp.Rule{Name: "C19.R8"}
+		r.Relevant = func(f *ssa.Function) bool { return region[f] && f != ev }
+		r.Match = func(in ssa.Instruction) []esp.Ev {
+			if isFDAssert(in) {
+				return []esp.Ev{{ID: 0, Name: "descriptor is a field descriptor", ErrIdx: -1, BoolIdx: 0}}
+			}
+			call, ok := in.(ssa.CallInstruction)
+			if !ok {
+				return nil
+			}
+			if k := convKind(call); k != "" {
+				nConv++
+				return []esp.Ev{{ID: 3, Name: "Value." + k, ErrIdx: -1, BoolIdx: -1, Data: k}}
+			}
+			cc := call.Common()
+			if cc.IsInvoke() && methodFromIface(cc.Method, protoreflectPkg, "FieldDescriptor") {
+				switch cc.Method.Name() {
+				case "IsList":
+					return []esp.Ev{{ID: 1, Name: "IsList", ErrIdx: -1, BoolIdx: 0}}
+				case "IsMap":
+					return []esp.Ev{{ID: 2, Name: "IsMap", ErrIdx: -1, BoolIdx: 0}}
+				}
+			}
+			if cal := cc.StaticCallee(); cal != nil && cal.Name() == "Kind" && cal.Signature.Recv() != nil && namedIs(cal.Signature.Recv().Type(), protopathPkg, "Step") {
+				return []esp.Ev{{ID: 4, Name: "next step", ErrIdx: -1, BoolIdx: -1}}
+			}
+			return nil
+		}
+		r.Step = func(x *esp.Ctx, s esp.State, e esp.Ev, ph esp.Phase) (esp.State, string) {
+			switch e.ID {
+			case 4:
+				if ph == esp.AtCall {
+					s.A = 0
+				}
+			case 0:
+				switch ph {
+				case esp.AtCall:
+					s.A = 0
+				case esp.Ok:
+					return s.Set(bFD), ""
+				case esp.Fail:
+					return s.Set(bNotFD), ""
+				}
+			case 1:
+				if ph == esp.Ok {
+					return s.Set(bList).Clear(bNotList), ""
+				} else if ph == esp.Fail {
+					return s.Set(bNotList).Clear(bList), ""
+				}
+			case 2:
+				if ph == esp.Ok {
+					return s.Set(bMap).Clear(bNotMap), ""
+				} else if ph == esp.Fail {
+					return s.Set(bNotMap).Clear(bMap), ""
+				}
+			case 3:
+				if ph != esp.AtCall {
+					return s, ""
+				}
+				ok := false
+				switch e.Data.(string) {
+				case "List":
+					ok = s.Has(bList)
+				case "Map":
+					ok = s.Has(bMap)
+				case "Message":
+					ok = s.Has(bNotFD) || (s.Has(bNotList) && s.Has(bNotMap))
+				}
+				if !ok {
+					return s, "R8: Value." + e.Data.(string) + "() is reachable in state " + fmtState(names, s) + ": the descriptor cursor has not established that the value cursor holds that kind, and protoreflect panics on a mismatch"
+				}
+			}
+			return s, ""
+		}
+		e := c.engine(r)
+		e.Run(ev, esp.State{})
+		n := c.reportEngine(e, "R8", func(v *esp.Violation) string { return load.FuncName(v.Fn) + ":cursor kind" })
+		c.S.Floor("R8", "kind conversions of the value cursor in "+load.FuncName(ev), 3, nConv)
+		if n == 0 {
+			c.S.OK("R8", load.FuncName(ev)+":cursor kind", c.pos(ev.Pos()), fmt.Sprintf("every Value.Message/List/Map call follows the matching descriptor test (%d configurations)", e.Configs), true)
+		}
 	}
 
 	// ---- R3: token switch in the parser ----
